@@ -133,6 +133,8 @@ pub struct AdapterScript {
     pub strategy: StrategyScript,
     pub strategy_latency: Duration,
     pub localize: LocalizeScript,
+    /// which kind of `passage_adapters::Error` a scripted failure is reported as (mod 4)
+    pub error_kind: u8,
 }
 
 impl Default for AdapterScript {
@@ -150,6 +152,7 @@ impl Default for AdapterScript {
             strategy: StrategyScript::Position(0),
             strategy_latency: Duration::ZERO,
             localize: LocalizeScript::Echo { as_object: true },
+            error_kind: 0,
         }
     }
 }
@@ -170,8 +173,15 @@ impl std::fmt::Debug for Rec {
     }
 }
 
-fn scripted_error() -> Error {
-    Error::AdapterUnavailable { adapter_type: "verif-recording", reason: "scripted failure" }
+/// A failure is a failure, whichever kind the service reports.
+fn scripted_error(kind: u8) -> Error {
+    let cause = || -> Box<dyn std::error::Error + Send + Sync> { "scripted failure (verification harness)".into() };
+    match kind % 4 {
+        0 => Error::AdapterUnavailable { adapter_type: "verif-recording", reason: "scripted failure" },
+        1 => Error::FailedFetch { adapter_type: "verif-recording", cause: cause() },
+        2 => Error::FailedParse { adapter_type: "verif-recording", cause: cause() },
+        _ => Error::FailedInitialization { adapter_type: "verif-recording", cause: cause() },
+    }
 }
 
 impl Rec {
@@ -237,7 +247,7 @@ impl StatusAdapter for Rec {
         }
         let out = match &self.script.status {
             Outcome::Ok(v) => Ok(v.clone()),
-            Outcome::Err => Err(scripted_error()),
+            Outcome::Err => Err(scripted_error(self.script.error_kind)),
             Outcome::Never => std::future::pending().await,
         };
         self.done(idx);
@@ -264,7 +274,7 @@ impl AuthenticationAdapter for Rec {
         self.wait(self.script.auth_latency).await;
         let out = match &self.script.auth {
             Outcome::Ok(v) => Ok(v.clone()),
-            Outcome::Err => Err(scripted_error()),
+            Outcome::Err => Err(scripted_error(self.script.error_kind)),
             Outcome::Never => std::future::pending().await,
         };
         self.done(idx);
@@ -278,7 +288,7 @@ impl DiscoveryAdapter for Rec {
         self.wait(self.script.discovery_latency).await;
         let out = match &self.script.discovery {
             Outcome::Ok(v) => Ok(v.iter().map(|t| t.to_target()).collect()),
-            Outcome::Err => Err(scripted_error()),
+            Outcome::Err => Err(scripted_error(self.script.error_kind)),
             Outcome::Never => std::future::pending().await,
         };
         self.done(idx);
@@ -305,7 +315,7 @@ impl FilterAdapter for Rec {
             FilterScript::Identity => Ok(targets),
             FilterScript::Positions(p) => Ok(p.iter().filter_map(|i| targets.get(*i).cloned()).collect()),
             FilterScript::Fixed(v) => Ok(v.iter().map(|t| t.to_target()).collect()),
-            FilterScript::Err => Err(scripted_error()),
+            FilterScript::Err => Err(scripted_error(self.script.error_kind)),
             FilterScript::Never => std::future::pending().await,
         };
         self.done(idx);
@@ -337,7 +347,7 @@ impl StrategyAdapter for Rec {
                 }
             }
             StrategyScript::Fixed(v) => Ok(v.as_ref().map(|t| t.to_target())),
-            StrategyScript::Err => Err(scripted_error()),
+            StrategyScript::Err => Err(scripted_error(self.script.error_kind)),
             StrategyScript::Never => std::future::pending().await,
         };
         self.done(idx);
@@ -366,9 +376,9 @@ impl LocalizationAdapter for Rec {
             LocalizeScript::Echo { as_object } => Ok(echo_text(locale, key, *as_object)),
             LocalizeScript::Table { .. } => match &self.fixed_localization {
                 Some(fixed) => fixed.localize(locale, key, params).await,
-                None => Err(scripted_error()),
+                None => Err(scripted_error(self.script.error_kind)),
             },
-            LocalizeScript::Err => Err(scripted_error()),
+            LocalizeScript::Err => Err(scripted_error(self.script.error_kind)),
         };
         self.done(idx);
         out
